@@ -245,6 +245,7 @@ type Check struct {
 	start       time.Time
 	VerifDir    string
 	noEvidence  bool
+	keyCount    map[string]int
 }
 
 type floor struct {
@@ -253,6 +254,13 @@ type floor struct {
 }
 
 func (c *Check) add(rule, key, pos, desc, status, how string) *Obligation {
+	if c.keyCount == nil {
+		c.keyCount = map[string]int{}
+	}
+	c.keyCount[rule+"|"+key]++
+	if n := c.keyCount[rule+"|"+key]; n > 1 {
+		key = fmt.Sprintf("%s#%d", key, n)
+	}
 	o := &Obligation{Rule: rule, Key: key, Pos: pos, Desc: desc, Status: status, How: how}
 	c.Obls = append(c.Obls, o)
 	return o
